@@ -3,7 +3,7 @@
    by the correspondence runs of harness/cmd/c06). *)
 From Coq Require Import List ZArith Bool.
 Import ListNotations.
-From GU Require Import C06.Model C06.Proofs C06.ProofsWf C06.Vfs C06.ProofsVfsRm C06.ProofsVfsCopy C06.ProofsVfsCopyDir C06.ProofsVfsList C06.ProofsVfs.
+From GU Require Import C06.Model C06.Facts C06.Gen C06.Proofs C06.ProofsWf C06.Vfs C06.ProofsVfsHandles C06.ProofsVfsRm C06.ProofsVfsCopy C06.ProofsVfsCopyDir C06.ProofsVfsList C06.ProofsVfsFallback C06.ProofsVfs.
 Local Open Scope Z_scope.
 
 (* Query calls (read, the listings, exists / is-file / is-dir / is-empty, size, hash, path conversion) never change the tree,
@@ -105,23 +105,48 @@ Theorem program_preserves_wf : forall cs t t', wf t -> run t cs = Some t' -> wf 
 Proof. exact run_preserves_wf_l. Qed.
 Print Assumptions program_preserves_wf.
 
+(* ===== The mechanised model M is parameterised by a record of FACTS about files.go that is REGENERATED FROM THE SOURCE on
+   every run (translator-c06 -> Gen.v: gen_facts).  The lemmas of the proof files hold for every record satisfying the
+   condition named in each (move_ok / copy_ok / write_ok / paths_ok / handles_ok / fallback_ok, Facts.v); the theorems below
+   are those lemmas INSTANTIATED WITH THE GENERATED RECORD, the conditions being discharged by computation (eq_refl): an edit
+   of the source that changes a fact breaks exactly the theorems whose condition mentions it. ===== *)
+
 (* Refinement M <= R: on a well-formed tree, for every call in [m_exec] — mkdir, touch, write, read, ls, exists, is-file,
-   is-dir, is-empty, size, sub-directories, the recursive rm and clean, Move (destination resolved as mv, guards, rename), CopyToFile, and
-   Copy / CopyToDirectory of a file (the destination-shape table) — that is free of kind conflicts, the mechanised model of
-   the VFS code over back-end primitives returns exactly the result and the tree (as a list) of the reference model.
-   (_partial: LsRecursive / Walk, FindAll, hash and path conversion are not in M (ListDirTree has its own theorem below); Move's copy-then-remove fall-back is
-   modelled but is dead code when the back end's rename is POSIX, so the theorem says nothing about it.) *)
+   is-dir, is-empty, size, sub-directories, the recursive rm and clean, Move (the checks of MoveWithContext in the order
+   found in the source, then MkDir of the parent and the rename), CopyToFile, Copy / CopyToDirectory of a file (the
+   destination-shape table), and the calls on the empty name — that is free of kind conflicts, M returns exactly the result
+   and the tree (as a list) of the reference model.
+   Needs of the facts: move_ok (order of the checks; the into-itself test standing alone), copy_ok (guards present and before
+   the creation of the destination; same-file guard on the RESOLVED destination; file-over-directory refusal), write_ok
+   (O_CREATE, O_TRUNC), paths_ok (checkPathIsNotEmpty in Stat / GenericOpen / OpenFile).
+   (_partial: LsRecursive / Walk, FindAll, hash and path conversion are not in M; ListDirTree has its own theorem below.) *)
 Theorem vfs_refines_ref_partial : forall t c m r t',
-  wf t -> m_exec t c = Some m -> exec t c = Out r t' -> m_r m = r /\ m_t m = t'.
-Proof. exact m_refines_r_l. Qed.
+  wf t -> m_exec gen_facts t c = Some m -> exec t c = Out r t' -> m_r m = r /\ m_t m = t'.
+Proof. exact (fun t c m r t' => m_refines_r_l gen_facts t c m r t' eq_refl eq_refl eq_refl eq_refl). Qed.
 Print Assumptions vfs_refines_ref_partial.
 
 (* ... lifted to programs of ANY length over the calls M covers, from a well-formed INITIAL tree: M yields the same list of
-   results and the same final tree as R, and has closed as many handles as it opened.  (_partial: M does not cover every call.) *)
+   results and the same final tree as R (same needs), and has closed as many handles as it opened (needs handles_ok). *)
 Theorem vfs_program_refines_ref_partial : forall cs t rs t' x,
-  wf t -> run_res t cs = Some (rs, t') -> m_run t cs = Some x -> exists o, x = (rs, t', o, o).
-Proof. exact m_program_refines_r_l. Qed.
+  wf t -> run_res t cs = Some (rs, t') -> m_run gen_facts t cs = Some x -> exists o, x = (rs, t', o, o).
+Proof.
+  intros cs t rs t' x W Hr Hm.
+  destruct (m_program_refines_r_l gen_facts cs eq_refl eq_refl eq_refl eq_refl t rs t' x W Hr Hm) as [o [cl ->]].
+  rewrite (m_program_handles_balanced_l gen_facts cs eq_refl _ _ _ _ _ Hm). eauto.
+Qed.
 Print Assumptions vfs_program_refines_ref_partial.
+
+(* WriteFile alone (needs only write_ok: O_CREATE and O_TRUNC in the open flags of WriteToFile) *)
+Theorem vfs_write_refines_ref : forall t p tr c r t',
+  r_write t (P p tr) c = Out r t' -> m_r (m_write gen_facts t p c) = r /\ m_t (m_write gen_facts t p c) = t'.
+Proof. exact (fun t p tr c r t' => m_write_refines gen_facts t p tr c r t' eq_refl). Qed.
+Print Assumptions vfs_write_refines_ref.
+
+(* The calls on the empty name alone (needs only paths_ok: without the guards a back end may answer for its own root) *)
+Theorem vfs_empty_name_refines_ref : forall t c m r t',
+  is_empty_call c = true -> m_exec gen_facts t c = Some m -> exec t c = Out r t' -> m_r m = r /\ m_t m = t'.
+Proof. exact (fun t c m r t' => m_empty_refines gen_facts t c m r t' eq_refl). Qed.
+Print Assumptions vfs_empty_name_refines_ref.
 
 (* Termination of the recursive removal with explicit fuel: one more than the number of entries of the tree always suffices
    (more precisely: more than the number of entries at or below the path), and the result is then rm -rf / rm -rf dir/*. *)
@@ -144,24 +169,48 @@ Print Assumptions vfs_clean_fuel_sufficient.
    finite map (the order of the entries differs from R's), the tree stays well-formed, handles balanced — and the fuel
    S (number of entries) given to the recursive functions always suffices (m_exec_all never runs out on a constrained call). *)
 Theorem vfs_all_refines_ref_partial : forall t c m r t',
-  wf t -> m_exec_all t c = Some m -> exec t c = Out r t' ->
+  wf t -> m_exec_all gen_facts t c = Some m -> exec t c = Out r t' ->
   m_r m = r /\ (forall q, find_entry (m_t m) q = find_entry t' q) /\ wf (m_t m) /\ m_opened m = m_closed m.
-Proof. exact m_all_refines_r_l. Qed.
+Proof.
+  intros t c m r t' W Hm Hr.
+  destruct (m_all_refines_r_l gen_facts t c m r t' eq_refl eq_refl eq_refl eq_refl W Hm Hr) as [A [B C]].
+  repeat split; auto. exact (m_all_handles_balanced_l gen_facts t c m eq_refl Hm).
+Qed.
 Print Assumptions vfs_all_refines_ref_partial.
 
 (* Termination of the recursive copy with explicit fuel: one more than the number of entries suffices for every directory
    copy R constrains (into itself / over its own parent is refused before anything is created), and the result is cp -r. *)
 Theorem vfs_copy_dir_fuel_sufficient : forall t s str d dtr r t',
   wf t -> is_dir t s = true -> r_copy t (P s str) (P d dtr) = Out r t' ->
-  exists t'' h, m_copy (S (length t)) t s str d dtr = Some (r, t'', h) /\ (forall q, find_entry t'' q = find_entry t' q) /\ wf t''.
-Proof. exact m_copy_dir_refines. Qed.
+  exists t'' h, m_copy gen_facts (S (length t)) t s str d dtr = Some (r, t'', h) /\ (forall q, find_entry t'' q = find_entry t' q) /\ wf t''.
+Proof. exact (fun t s str d dtr r t' => m_copy_dir_refines gen_facts t s str d dtr r t' eq_refl). Qed.
 Print Assumptions vfs_copy_dir_fuel_sufficient.
 
-(* Move never needs fuel beyond 1 when the back end's rename is POSIX: the resolution, the guards and the rename decide. *)
+(* Move never needs fuel beyond 1 when the back end's rename is POSIX: the checks, in the order of the source, and the rename
+   decide.  Needs only move_ok. *)
 Theorem vfs_move_refines_ref : forall t n s str d dtr r t' f,
-  wf t -> r_move t (P (n :: s) str) (P d dtr) = Out r t' -> exists h, m_move (S f) t (n :: s) str d dtr = Some (r, t', h).
-Proof. exact m_move_refines. Qed.
+  wf t -> r_move t (P (n :: s) str) (P d dtr) = Out r t' -> exists h, m_move gen_facts (S f) t (n :: s) str d dtr = Some (r, t', h).
+Proof. exact (fun t n s str d dtr r t' f => m_move_refines gen_facts t n s str d dtr r t' f eq_refl). Qed.
 Print Assumptions vfs_move_refines_ref.
+
+(* Move's fall-back, taken when the back end refuses the rename (xdev = true: as across devices).  For a FILE (moveFile: Copy,
+   then Remove) and for an EMPTY DIRECTORY (moveFolder: MkDir(dest), nothing to loop over, Remove(src)) moved to a missing
+   destination whose parent exists, M gives the tree of R's mv, as a finite map.
+   Needs of the facts: IsDir(SRC) — not dest — chooses moveFolder / moveFile; moveFolder removes the source ALSO when it was
+   empty; and, for the file, copy_ok.   (_partial: a non-empty directory — the recursive case — is not proved; it is compared
+   with R on the implementation by forcing renames to fail.) *)
+Theorem vfs_move_fallback_refines_ref_partial : forall t s dst f,
+  wf t -> s <> [] -> dst <> [] -> find_entry t dst = None -> is_dir t (parent dst) = true -> is_prefix s dst = false ->
+  (forall c, find_entry t s = Some (F c) ->
+     exists t'' h, m_move_raw gen_facts true (S f) t s dst = Some (ROk, t'', h) /\ (forall q, find_entry t'' q = find_entry (rename_sub t s dst) q))
+  /\ (find_entry t s = Some D -> children t s = [] ->
+     exists t'' h, m_move_raw gen_facts true (S f) t s dst = Some (ROk, t'', h) /\ (forall q, find_entry t'' q = find_entry (rename_sub t s dst) q)).
+Proof.
+  intros t s dst f W Hs Hd Fd Pd P1. split.
+  - intros c Fs. exact (m_move_fallback_file gen_facts t s dst c f eq_refl eq_refl W Hs Hd Fs Fd Pd P1).
+  - intros Fs Ch. exact (m_move_fallback_empty_dir gen_facts t s dst f eq_refl eq_refl W Hs Hd Fs Ch Fd Pd P1).
+Qed.
+Print Assumptions vfs_move_fallback_refines_ref_partial.
 
 (* ListDirTree (depth-first, explicit fuel S (number of entries), proved sufficient): M lists exactly the paths R lists, as a set
    (the order is the back end's), and the error cases coincide. *)
@@ -174,9 +223,10 @@ Theorem vfs_tree_listing_refines_ref : forall t p tr r t',
 Proof. exact m_tree_refines. Qed.
 Print Assumptions vfs_tree_listing_refines_ref.
 
-(* ... and every path through the modelled code closes the handles it opened (success and failure paths alike). *)
-Theorem vfs_handles_balanced_partial : forall t c m, m_exec t c = Some m -> m_opened m = m_closed m.
-Proof. exact m_handles_balanced_l. Qed.
+(* ... and every path through the modelled code closes the handles it opened, success and failure paths alike (whatever the
+   call, constrained or not).  Needs handles_ok: the deferred Closes of copyFile and WriteToFile registered right after the opens. *)
+Theorem vfs_handles_balanced_partial : forall t c m, m_exec_all gen_facts t c = Some m -> m_opened m = m_closed m.
+Proof. exact (fun t c m => m_all_handles_balanced_l gen_facts t c m eq_refl). Qed.
 Print Assumptions vfs_handles_balanced_partial.
 
 (* Non-vacuity: the witnesses of D12 / D28 / D24 / D26 evaluated on R. *)
@@ -192,14 +242,14 @@ Proof. reflexivity. Qed.
 Example c06_d26 : exec [([0], D); ([0;1], F [7])] (Copy (P [0;1] false) (P [0] false)) = Out ROk [([0], D); ([0;1], F [7])].
 Proof. reflexivity. Qed.
 Example c06_wf_nonvacuous : wf [([0], D); ([0;1], F [7]); ([3], D)] /\
-  m_exec [([0], D); ([0;1], F [7]); ([3], D)] (Touch (P [3;2] false)) =
+  m_exec gen_facts [([0], D); ([0;1], F [7]); ([3], D)] (Touch (P [3;2] false)) =
     Some (mkM ROk [([0], D); ([0;1], F [7]); ([3], D); ([3;2], F [])] 1 1).
 Proof. split; [apply wf_b_sound|]; reflexivity. Qed.
 Example c06_rm_nonvacuous :
-  m_exec [([0], D); ([0;1], D); ([0;1;2], F [7]); ([0;3], F []); ([4], D)] (Rm (P [0] false)) = Some (mkM ROk [([4], D)] 18 18).
+  m_exec gen_facts [([0], D); ([0;1], D); ([0;1;2], F [7]); ([0;3], F []); ([4], D)] (Rm (P [0] false)) = Some (mkM ROk [([4], D)] 18 18).
 Proof. reflexivity. Qed.
 Example c06_m_copy_dir_nonvacuous :
-  match m_exec_all [([0], D); ([0;1], F [7]); ([0;2], D); ([0;2;1], F [8]); ([3], D); ([3;0], D); ([3;0;4], F [9])]
+  match m_exec_all gen_facts [([0], D); ([0;1], F [7]); ([0;2], D); ([0;2;1], F [8]); ([3], D); ([3;0], D); ([3;0;4], F [9])]
                    (Copy (P [0] false) (P [3] false)) with
   | Some m => res_eqb (m_r m) ROk &&
               tree_eqb (m_t m) [([0], D); ([0;1], F [7]); ([0;2], D); ([0;2;1], F [8]); ([3], D); ([3;0], D); ([3;0;4], F [9]);
